@@ -33,3 +33,53 @@ func H_C08_fileline() {
 		vReach("full")
 	}
 }
+
+//verif:witness H_C08_text end
+//verif:bound C08 quick text layout vs JSON layout on the event shapes of the C07 harness (0..2 call fields, see C07 bounds)
+//verif:bound C08 thorough text layout vs JSON layout on the event shapes of the C07 harness (0..3 call fields, nesting 3)
+//verif:assume C08 tag, level name and context string are harness constants without control characters (the claim is about field keys and values); time formatting is time.Format's
+
+// H_C08_text: the text line must be the header plus key=value pairs whose texts are the JSON
+// layout's tokens for the same event (string fields, error texts and non-finite floats without quotes).
+func H_C08_text() {
+	maxFields, maxDepth := 2, 1
+	if vTier() > 0 {
+		maxFields, maxDepth = 3, 2
+	}
+	e, want := vGenEvent(maxFields, maxDepth)
+	jl := &JSONLayout{BaseLayout{FileLineLength: 48}}
+	tl := &TextLayout{BaseLayout{FileLineLength: 48}}
+	jout := append([]byte(nil), jl.ToBytes(e)...)
+	tout := append([]byte(nil), tl.ToBytes(e)...)
+	got, ok := vParseJSONLine(jout)
+	vAssume(ok && got.kind == 'o' && len(got.vals) == len(want.vals)) // C07 decides validity of the JSON line
+	exp := []byte("[INFO][2025-06-01T12:30:45.123][file.go:10] _t_x||")
+	first := 4
+	if e.CtxString != "" {
+		exp = append(exp, "cs||"...)
+		first = 5
+	}
+	for i := first; i < len(got.vals); i++ {
+		if i > first {
+			exp = append(exp, "||"...)
+		}
+		k := got.rawKeys[i]
+		exp = append(exp, k[1:len(k)-1]...)
+		exp = append(exp, '=')
+		v := got.vals[i].raw
+		if want.vals[i].unq {
+			v = v[1 : len(v)-1]
+		}
+		exp = append(exp, v...)
+	}
+	exp = append(exp, '\n')
+	vAssert(vBytesEqual(tout, exp), "text-line-equals-header-plus-json-tokens")
+	for i := 0; i < len(tout); i++ {
+		if i == len(tout)-1 {
+			vAssert(tout[i] == '\n', "line-ends-with-newline")
+		} else {
+			vAssert(tout[i] >= 0x20, "no-raw-control-character-inside-the-line")
+		}
+	}
+	vReach("end")
+}
